@@ -43,4 +43,40 @@ theorem foldl_append_flatMap {α γ : Type} (l : List α) (f : α → List γ) (
   | nil => simp
   | cons a l ih => simp [ih, List.flatMap_cons, List.append_assoc]
 
+/-- a single-bit test: `h & 32` is 0 or 32 (so `== 32`, `!= 0`, `> 0` are the same test) -/
+theorem and_32_cases (h : Nat) : h &&& 32 = 0 ∨ h &&& 32 = 32 := by
+  cases hb : h.testBit 5
+  · left
+    apply Nat.eq_of_testBit_eq
+    intro i
+    have : (32 : Nat) = 2 ^ 5 := rfl
+    rw [Nat.testBit_and, this, Nat.testBit_two_pow]
+    by_cases hi : 5 = i
+    · subst hi; simp [hb]
+    · simp [hi]
+  · right
+    apply Nat.eq_of_testBit_eq
+    intro i
+    have : (32 : Nat) = 2 ^ 5 := rfl
+    rw [Nat.testBit_and, this, Nat.testBit_two_pow]
+    by_cases hi : 5 = i
+    · subst hi; simp [hb]
+    · simp [hi]
+
+/-- two loop bodies that agree on every element and state give the same loop -/
+theorem forIn_list_congr {α β : Type} (l : List α) (g f : α → β → Option (ForInStep β))
+    (h : ∀ a s, g a s = f a s) (s : β) : forIn l s g = forIn l s f := by
+  have : g = f := by funext a s; exact h a s
+  rw [this]
+
+/-- `go_loop L F`: rewrite the loop over the list `L` in the goal — `for i := range L { … L[i] … }` or
+`for _, x := range L { … x … }`, whatever the shape of its body — into the loop with body `F`, provided `simp` can show
+that the two bodies agree on every element -/
+syntax "go_loop " term:max ppSpace term:max : tactic
+macro_rules
+  | `(tactic| go_loop $L $F) => `(tactic|
+      first
+      | rw [forIn_rangeI_congr $L _ $F (by intro k hk s; simp [idxI_natCast _ k hk])]
+      | rw [forIn_list_congr $L _ $F (by intro a s; simp)])
+
 end Fit.Go2Lean
